@@ -27,6 +27,7 @@ Elem3(i, p) == CASE i = 0 -> <<TT, DD, WW, DD>>
                  [] i = 2 -> <<WW, DD>>
                  [] i = 3 -> <<DD, WW, [k |-> "u"]>>
                  [] i = 4 -> <<DD, [k |-> "e", path |-> p, force |-> TRUE]>>
+                 [] i = 6 -> <<[k |-> "e", path |-> p, force |-> TRUE], DD>>
                  [] OTHER -> <<TT, DD, WW, DD, [k |-> "u"], [k |-> "redo"]>>
 GenCmd(st, sd, t) ==
     LET k == Pick(sd, t, 0, 100)
@@ -63,7 +64,7 @@ GenCmd(st, sd, t) ==
        ELSE IF filling THEN (IF Dirty(Cur(st)) /\ ~f(3) THEN [k |-> "w", path |-> "", whole |-> TRUE, beg |-> 0, end |-> 0, force |-> TRUE, fault |-> ""]
                         ELSE IF Pick(sd, t, 8, 4) = 0 THEN [k |-> "a", n |-> 1]
                         ELSE [k |-> "e", path |-> AllPaths[Min2(NPaths(sd), Len(st.tab) + Pick(sd, t, 2, 2))], force |-> f(3)])
-       ELSE IF k < 4 THEN [k |-> "line", cs |-> Elem3(Pick(sd, t, 2, 6), PathOf(sd, t, 3))]
+       ELSE IF k < 4 THEN [k |-> "line", cs |-> Elem3(Pick(sd, t, 2, 7), PathOf(sd, t, 3))]
        (* with the table full, go back to the least recently used buffers by path: the last slots of the table *)
        ELSE IF k < 10 /\ Len(st.tab) = 16 /\ st.tab[16 - Pick(sd, t, 4, 2)].path # ""
             THEN [k |-> "e", path |-> st.tab[16 - Pick(sd, t, 4, 2)].path, force |-> f(5)]
@@ -195,6 +196,10 @@ CorpusScripts == <<
     (* a partial write to the buffer's own file does not make it unmodified *)
     << [k |-> "e", path |-> "f1", force |-> FALSE], [k |-> "a", n |-> 2],
        [k |-> "w", path |-> "", whole |-> FALSE, beg |-> 0, end |-> 1, force |-> TRUE, fault |-> ""], [k |-> "q", force |-> FALSE, fault |-> ""] >>,
+    (* a line that changes f1 and leaves it, a line that comes back and changes it again: two undo steps *)
+    << [k |-> "e", path |-> "f1", force |-> FALSE], [k |-> "a", n |-> 3],
+       [k |-> "line", cs |-> <<DD, [k |-> "e", path |-> "f2", force |-> TRUE]>>],
+       [k |-> "line", cs |-> <<[k |-> "e", path |-> "f1", force |-> TRUE], DD>>], [k |-> "u"], [k |-> "u"], [k |-> "redo"] >>,
     (* piping an unnamed modified buffer to a command neither names nor saves it: :q is refused *)
     << [k |-> "a", n |-> 2], [k |-> "wp"], [k |-> "q", force |-> FALSE, fault |-> ""], [k |-> "e", path |-> "f1", force |-> FALSE],
        [k |-> "a", n |-> 1], [k |-> "wp"], [k |-> "q", force |-> FALSE, fault |-> ""] >> >>
